@@ -11,6 +11,7 @@ import Abmarl.Model.ObserversDriver
 import Abmarl.Model.DoneDriver
 import Abmarl.Model.PlacementDriver
 import Abmarl.Model.SpacesDriver
+import Abmarl.Model.AttacksDriver
 /-! Line-protocol driver: one request per line on stdin, one reply per line on stdout. -/
 open Abmarl
 
@@ -41,6 +42,7 @@ def dispatch (line : String) : String :=
       | "gmaze" => PlacementDriver.handleMaze args
       | "ravel" | "unravel" | "ravelspace" | "checkspace" | "flatten" | "unflatten" | "flatspace" =>
         SpacesDriver.handle op args
+      | "gattack" => AttacksDriver.handle args
       | "ping" => some (.list (.atom "pong" :: args))
       | _ => none
     match r with
